@@ -128,28 +128,50 @@ pub fn corpus(tier: &str) -> Corpus {
         }
     }
     // scale: the sizes at which an inline buffer, a bit mask or a small counter overflows
-    for n in if thorough { vec![5usize, 9, 17, 33, 65] } else { vec![9usize, 17] } {
+    // (one line per group of queries, so that the shards share the cost)
+    for n in if thorough { vec![5usize, 9, 17, 33, 65] } else { vec![9usize] } {
         let ints: Vec<String> = (1..=n).map(|i| i.to_string()).collect();
         let vars: Vec<String> = (1..=n).map(|i| format!("$V{}", i)).collect();
         let facts: Vec<String> = (1..=n).map(|i| format!("t({}).", i)).collect();
-        let goals: Vec<String> = (1..=n).map(|i| if i == n / 2 { "!".to_string() } else { format!("t($Y{})", i) }).collect();
-        c.queries += 10;
+        let goals: Vec<String> = (1..=n).map(|i| if i == n / 2 { "!".to_string() } else if i < n / 2 { format!("t($Y{})", i) } else { format!("t({})", i) }).collect();
+        let (ints_s, vars_s) = (ints.join(", "), vars.join(", "));
+        let groups: Vec<(usize, String)> = vec![
+            (
+                3,
+                format!(
+                    "next\tw({ints}) ;; w({vars}) ;; chain($A, $B)\tw({vars}).\tchain($V1, $V{n}) :- {links}.\t{linkfacts}",
+                    ints = ints_s,
+                    vars = vars_s,
+                    n = n,
+                    links = (1..n).map(|i| format!("link($V{}, $V{})", i, i + 1)).collect::<Vec<_>>().join(", "),
+                    linkfacts = (1..n).map(|i| format!("link({}, {}).", i, i + 1)).collect::<Vec<_>>().join("\t")
+                ),
+            ),
+            (
+                2,
+                format!(
+                    "next\tlen([{ints}], $N) ;; app($X, $Y, [{few}])\tlen([], 0).\tlen([$_ | $T], $N) :- len($T, $M), $N = $M + 1.\tapp([], $L, $L).\tapp([$H | $T], $L, [$H | $R]) :- app($T, $L, $R).",
+                    ints = ints_s,
+                    few = ints.iter().take(5).cloned().collect::<Vec<_>>().join(", ")
+                ),
+            ),
+            (2, format!("next\tp($Z) ;; cutk($Z)\t{facts}\tp($X) :- t($X), $X >= {n}.\tcutk($X) :- {goals}, t($X).\tcutk(0).", facts = facts.join("\t"), n = n, goals = goals.join(", "))),
+            (
+                3,
+                format!(
+                    "next\tdeepl($Z) ;; deepc({deepc}) ;; deepg($Z)\tt(1).\tdeepl($X) :- $X = {deepl}.\tdeepc($X) :- $X = {deepc}.\tdeepg($X) :- {deepg}.",
+                    deepl = format!("{}a{}", "[".repeat(n), "]".repeat(n)),
+                    deepc = format!("{}a{}", "f(".repeat(n), ")".repeat(n)),
+                    deepg = format!("{}t($X){}", "(".repeat(n), ")".repeat(n))
+                ),
+            ),
+        ];
         c.with_cut += 1;
-        *c.families.entry("scale".into()).or_insert(0) += 1;
-        c.lines.push(format!(
-            "next\tw({ints}) ;; w({vars}) ;; len([{ints}], $N) ;; p($Z) ;; app($X, $Y, [{few}]) ;; cutk($Z) ;; chain($A, $B) ;; deepl($Z) ;; deepc({deepc}) ;; deepg($Z)\tw({vars}).\tchain($V1, $V{n}) :- {links}.\t{linkfacts}\tdeepl($X) :- $X = {deepl}.\tdeepc($X) :- $X = {deepc}.\tdeepg($X) :- {deepg}.\tlen([], 0).\tlen([$_ | $T], $N) :- len($T, $M), $N = $M + 1.\tapp([], $L, $L).\tapp([$H | $T], $L, [$H | $R]) :- app($T, $L, $R).\t{facts}\tp($X) :- t($X), $X >= {n}.\tcutk($X) :- {goals}, t($X).\tcutk(0).",
-            ints = ints.join(", "),
-            links = (1..n).map(|i| format!("link($V{}, $V{})", i, i + 1)).collect::<Vec<_>>().join(", "),
-            linkfacts = (1..n).map(|i| format!("link({}, {}).", i, i + 1)).collect::<Vec<_>>().join("\t"),
-            deepl = format!("{}a{}", "[".repeat(n), "]".repeat(n)),
-            deepc = format!("{}a{}", "f(".repeat(n), ")".repeat(n)),
-            deepg = format!("{}t($X){}", "(".repeat(n), ")".repeat(n)),
-            vars = vars.join(", "),
-            few = ints.iter().take(5).cloned().collect::<Vec<_>>().join(", "),
-            facts = facts.join("\t"),
-            n = n,
-            goals = goals.join(", ")
-        ));
+        for (nq, line) in groups {
+            c.queries += nq as u64;
+            *c.families.entry("scale".into()).or_insert(0) += 1;
+            c.lines.push(line);
+        }
     }
     // timer histories: the timer thread fires in the middle of a search, then further queries run
     let follow: Vec<(&str, Vec<&str>)> = vec![
